@@ -3446,6 +3446,46 @@ pub fn raw_lzma_decompress_twice_limit() {
 }
 
 
+//@ harness props=C14,C11,C08 tier=quick unwind=8 unwindset=process_mode:5,default_read_exact:4,extend_with:3 mem_gb=6 timeout=600 native=no
+//@ bound: raw LzmaDecoder with expected size 1: decompress (one abstract 2-byte literal), reset(None), decompress a second input that holds more than one symbol: the size given at construction is still in effect (a decode does not use up the decoder's parameters)
+#[cfg_attr(kani, kani::proof)]
+#[cfg_attr(kani, kani::stub(std::fmt::format, crate::verif_common::stub_format))]
+#[cfg_attr(kani, kani::stub(std::io::Error::is_interrupted, crate::verif_common::stub_not_interrupted))]
+#[cfg_attr(kani, kani::stub(crate::decode::lzma::DecoderState::process_next_inner, crate::decode::lzma::verif_h::abs_symbol))]
+#[cfg_attr(kani, kani::stub(crate::decode::lzma::DecoderState::reset_state, crate::decode::lzma::verif_h::observing_reset_state_lzma))]
+#[cfg_attr(kani, kani::stub(crate::decode::lzbuffer::LzCircularBuffer::from_stream, crate::decode::lzbuffer::verif_h::circ_from_stream_with_capacity))]
+#[cfg_attr(kani, kani::stub(crate::decode::lzma::DecoderState::new, crate::decode::lzma::verif_h::new_scripted_from_statics))]
+pub fn raw_lzma_decompress_twice_sized() {
+    let mut t = Tape::<32>::new();
+    let f1 = [t.u8(), t.u8(), t.u8(), t.u8(), t.u8(), t.u8(), t.u8(), 0xEE];
+    let f2 = [t.u8(), t.u8(), t.u8(), t.u8(), t.u8(), t.u8(), t.u8(), t.u8(), t.u8(), 0xEE];
+    let mut dec = match mk_raw_decoder(0x1000 as u32, Some(1), None, [script(2, K_LIT), script(2, K_LIT), script(2, K_LIT), script(20, K_LIT)]) {
+        Some(d) => d,
+        None => {
+            vassert!(false, "raw decoder: the constructor accepts these parameters");
+            return;
+        }
+    };
+    let mut rd1 = ArrReader::<8>::new(f1, 8);
+    let mut sink1 = CountSink::new();
+    let r1 = dec.decompress(&mut rd1, &mut sink1);
+    let ok1 = r1.is_ok();
+    forget(r1);
+    vassert!(ok1 && sink1.bytes == 1 && rd1.pos == 7, "one-shot decoder: reader left right after the payload (size-bounded decode)");
+    vassert!(dec.state.unpacked_size == Some(1), "raw decoder: a decode does not use up the expected size the decoder was given");
+    dec.reset(None);
+    vassert!(dec.state.unpacked_size == Some(1), "raw decoder: reset keeps the expected size on None and replaces it on Some");
+    let mut rd2 = ArrReader::<10>::new(f2, 10);
+    let mut sink2 = CountSink::new();
+    let r2 = dec.decompress(&mut rd2, &mut sink2);
+    let ok2 = r2.is_ok();
+    forget(r2);
+    vassert!(ok2 && sink2.bytes == 1 && rd2.pos == 7, "raw decoder: after reset(None) the next decode stops at the same expected size as the first");
+    vcover!(true, "end_reached");
+    forget(dec);
+}
+
+
 // ----- scripted stand-in for DecoderState::process_stream (Stream data-arm glue harnesses) -----
 pub static PS_CALLS: std::sync::atomic::AtomicUsize = std::sync::atomic::AtomicUsize::new(0);
 pub static PS_FAIL_AT: std::sync::atomic::AtomicUsize = std::sync::atomic::AtomicUsize::new(usize::MAX);
